@@ -256,6 +256,10 @@ def c04(pid, tier, seed):
     fams = [
         fam("fin_single", conf="single", W=4, H=6, D=3 if q else 4, BarOps=finishes + ("burst", "set_message", "inc", "drop", "iter"), MsgShapes=("a", "W1"),
             Tpls=("MnC",), Fins=("AndLeave", "AndClear", "Abandon", "WithMessage", "AbandonWithMessage"), Hz=20, DTs=(0,), M0="id"),
+        # a single terminal failure somewhere before the end: the terminal works again, so the final frame must still be painted
+        fam("fin_after_transient_fault", W=6, H=6, D=4 if q else 5, BarOps=finishes + ("tick", "drop", "set_message"), MsgShapes=("a",), Tpls=("MnC",), Fins=("AndLeave", "AndClear"), Faults=(1, 2, 4), M0="id"),
+        fam("fin_multi_after_transient_fault", W=6, H=8, Multi=True, MaxBars=2, Pre=2, D=5 if q else 6, BarOps=("finish", "finish_and_clear", "abandon", "tick", "drop"), MsgShapes=("a",), Tpls=("M",),
+            Fins=("AndLeave",), Faults=(1, 3), M0="id", shards=12),
         fam("fin_single_unlimited", conf="single", W=4, H=6, D=3 if q else 4, BarOps=finishes + ("tick", "reset", "drop", "iter", "set_length", "set_position"), MsgShapes=("a",),
             Tpls=("MnC", "M"), Fins=("AndLeave", "AndClear", "Abandon", "WithMessage", "AbandonWithMessage"), M0="id"),
         fam("fin_multi_orders", conf="multi", W=4, H=12, Multi=True, MaxBars=3, D=6 if q else 7, BarOps=("finish", "drop"), MpOps=(), Tpls=("MC",), Fins=("AndLeave", "AndClear"),
